@@ -78,7 +78,7 @@ def C06(tier):
     NW = 64 if tier == 'quick' else 256
     jobs.append(ajob('barrier.release_step.n%d' % NW, 'harness/C06_wake_step.c', ['-DNMAX=%d' % NW, '-DKIND=0'], unwind=NW + 4, timeout=7200, mem_gb=16, extra=['--object-bits', '12', '--max-field-sensitivity-array-size', '2000'],
                      replace_calls=['myth_sleep_stack_pop:stub_pop', 'myth_queue_push:stub_push'], bounds=dict(sleepers='every n in [0,%d]' % NW, step='one call of myth_wake_many_from_stack')))
-    NO = 1100  # measured: 98 s, 0.9 GB; 2048 with a full-size pool ran out of memory
+    NO = 1100 if tier == 'quick' else 2048  # measured (n=1100): 98 s, 0.9 GB; 2048 with a full-size pool ran out of memory
     jobs.append(ajob('barrier.release_order.n%d' % NO, 'harness/C06_wake_step.c', ['-DNMAX=%d' % NO, '-DKIND=0', '-DALIAS=1'], unwind=NO + 4, timeout=7200, mem_gb=40, extra=['--object-bits', '12'],
                      replace_calls=['myth_sleep_stack_pop:stub_pop', 'myth_queue_push:stub_push'], bounds=dict(sleepers='every n in [0,%d]' % NO, step='one call of myth_wake_many_from_stack; order of collection and publication only (all sleepers are one aliased descriptor; identity is decided by barrier.release_step)')))
     jobs.append(ajob('barrier.arrival_step', 'harness/C06_step.c', [], unwind=4, timeout=600, replace_calls=['myth_wake_many_from_stack:stub_wake_many', 'myth_block_on_stack:stub_block'],
